@@ -275,6 +275,14 @@ def _cid(x, what):
     return x
 
 
+def _cids(x, what):
+    """ids may be merged by the compiler into a select/phi: list of (id, cond)"""
+    if not isinstance(x, Term): return [(x, True)]
+    vs = get_vs(x)
+    if vs is None: raise Unsupported(what + ' id must be concrete')
+    return sorted(vs.items())
+
+
 def vp(m, name, args, g, I):
     if name == 'vp_nondet':
         i = _cid(args[0], name)
@@ -304,13 +312,13 @@ def vp(m, name, args, g, I):
         return g, None, False
     if name == 'vp_assert':
         eg, key = m.vis(g)
-        i = _cid(args[1], name)
-        m.oblige('assert', And(eg, Not(args[0])), 'vp_assert #%d (%s)' % (i, m.where()), tag=i)
+        for i, c in _cids(args[1], name):
+            m.oblige('assert', And(And(eg, c), Not(args[0])), 'vp_assert #%d (%s)' % (i, m.where()), tag=i)
         return g, None, False
     if name == 'vp_cover':
         eg, key = m.vis(g)
-        i = _cid(args[0], name)
-        m.covers[i] = Or(m.covers.get(i, False), eg)
+        for i, c in _cids(args[0], name):
+            m.covers[i] = Or(m.covers.get(i, False), And(eg, c))
         return g, None, False
     if name == 'vp_observe':
         eg, key = m.vis(g)
